@@ -368,9 +368,25 @@ Proof.
 Qed.
 
 Lemma key_public_iff p a b x y :
-  (contains_point p a b x y = true -> key_public p a b (x, y) = Ret (x, y)) /\
-  (contains_point p a b x y = false -> key_public p a b (x, y) = Raise E_PUBPAIR).
-Proof. unfold key_public. split; intros ->; reflexivity. Qed.
+  (contains_point p a b x y = true /\ 0 <= x < p /\ 0 <= y < p -> key_public p a b (x, y) = Ret (x, y)) /\
+  (~ (contains_point p a b x y = true /\ 0 <= x < p /\ 0 <= y < p) -> key_public p a b (x, y) = Raise E_PUBPAIR).
+Proof.
+  unfold key_public, in_field. split.
+  - intros (-> & Hx & Hy). cbn [negb].
+    destruct ((0 <=? x) && (x <? p) && ((0 <=? y) && (y <? p))) eqn:E; [reflexivity|lia].
+  - intros H. destruct (contains_point p a b x y); [|reflexivity]. cbn [negb].
+    destruct ((0 <=? x) && (x <? p) && ((0 <=? y) && (y <? p))) eqn:E; [|reflexivity].
+    exfalso. apply H. split; [reflexivity|lia].
+Qed.
+
+Lemma key_public_ret_inv p a b pr q : key_public p a b pr = Ret q ->
+  q = pr /\ contains_point p a b (fst pr) (snd pr) = true /\ 0 <= fst pr < p /\ 0 <= snd pr < p.
+Proof.
+  destruct pr as [x y]. unfold key_public, in_field. cbn [fst snd].
+  destruct (contains_point p a b x y); [|discriminate]. cbn [negb].
+  destruct ((0 <=? x) && (x <? p) && ((0 <=? y) && (y <? p))) eqn:E; [|discriminate]. cbn [negb].
+  intros H; injection H as <-. repeat split; lia.
+Qed.
 
 Lemma key_private_iff order e :
   (1 <= e < order -> key_private order e = Ret e) /\
@@ -401,7 +417,8 @@ Proof.
     - apply sec_compressed_roundtrip; assumption.
     - apply sec_uncompressed_roundtrip; try assumption; lia. }
   destruct Hsec as (sec & Eenc & Hlen & Edec). exists sec. repeat split; try assumption.
-  unfold key_from_sec. rewrite Edec. cbn [bind]. unfold key_public. rewrite Hc. cbn [bind].
+  unfold key_from_sec. rewrite Edec. cbn [bind].
+  destruct (key_public_iff p a b x y) as [Hk _]. rewrite Hk by (repeat split; try assumption; lia). cbn [bind].
   rewrite (public_pair_to_sec_flag _ _ _ Eenc). reflexivity.
 Qed.
 
@@ -415,8 +432,9 @@ Lemma key_from_sec_accepts_only_canonical sec x y c :
 Proof.
   intros Hodd. unfold key_from_sec.
   destruct (sec_to_public_pair p a b sec true) as [[x' y']| |] eqn:E; try discriminate.
-  cbn [bind]. unfold key_public.
-  destruct (contains_point p a b x' y') eqn:Ec; [|discriminate]. cbn [bind].
+  cbn [bind].
+  destruct (key_public p a b (x', y')) as [q| |] eqn:Ek; try discriminate. cbn [bind].
+  destruct (key_public_ret_inv _ _ _ _ _ Ek) as (-> & Ec & _ & _). cbn [fst snd] in Ec.
   intros H; injection H as <- <- <-.
   destruct (sec_strict_accepts_only_canonical p a b Hbc Hp sec x' y' Hodd E) as (Hx & Hy & Henc & Hshape).
   repeat (split; [assumption|]).
@@ -591,15 +609,29 @@ Proof.
 Qed.
 
 Lemma key_public_statement (p a b x y : Z) :
-  (contains_point p a b x y = true -> key_public p a b (x, y) = Ret (x, y)) /\
-  (contains_point p a b x y = false -> key_public p a b (x, y) = Raise E_PUBPAIR).
-Proof. apply key_public_iff. Qed.
+  (contains_point p a b x y = true /\ 0 <= x < p /\ 0 <= y < p -> key_public p a b (x, y) = Ret (x, y)) /\
+  (~ (contains_point p a b x y = true /\ 0 <= x < p /\ 0 <= y < p) -> key_public p a b (x, y) = Raise E_PUBPAIR) /\
+  (forall q, key_public p a b (x, y) = Ret q ->
+     q = (x, y) /\ contains_point p a b x y = true /\ 0 <= x < p /\ 0 <= y < p).
+Proof.
+  destruct (key_public_iff p a b x y) as [A B]. split; [exact A|]. split; [exact B|].
+  intros q H. exact (key_public_ret_inv _ _ _ _ _ H).
+Qed.
+
+(* unreduced names of a curve point are refused although they satisfy the curve equation *)
+Lemma unreduced_pair_refused (p a b x y : Z) : 0 < p -> 0 <= x < p -> 0 <= y < p ->
+  key_public p a b (x + p, y) = Raise E_PUBPAIR /\ key_public p a b (x, y + p) = Raise E_PUBPAIR /\
+  key_public p a b (x, y - p) = Raise E_PUBPAIR.
+Proof. intros Hp Hx Hy. repeat split; apply key_public_iff; lia. Qed.
 
 (* an off-curve uncompressed blob passes sec_to_public_pair but Key.from_sec raises InvalidPublicPairError *)
 Lemma off_curve_refused (p a b : Z) (sec : bytes) (x y : Z) :
   sec_to_public_pair p a b sec true = Ret (x, y) -> contains_point p a b x y = false ->
   key_from_sec p a b sec = Raise E_PUBPAIR.
-Proof. intros H1 H2. unfold key_from_sec. rewrite H1. cbn [bind]. unfold key_public. rewrite H2. reflexivity. Qed.
+Proof.
+  intros H1 H2. unfold key_from_sec. rewrite H1. cbn [bind].
+  destruct (key_public_iff p a b x y) as [_ B]. rewrite B; [reflexivity|]. rewrite H2. intros (H & _). discriminate.
+Qed.
 
 Lemma k1_g_roundtrips :
   contains_point k1_p k1_a k1_b k1_gx k1_gy = true /\ (k1_gy ^ (k1_p - 1)) mod k1_p = 1 /\
